@@ -366,6 +366,10 @@ func (ex *Exec) frameObligations(c *Contract, ctx *EvalCtx, mods []*Clause, post
 		if free {
 			continue
 		}
+		if ex.mode == "L2" && abstractListComp(comp.Name) {
+			// list views of the four collections whose GetAll* is assumed: no raw-store coupling to check against
+			continue
+		}
 		goal := ctx.compUnchanged(comp, except)
 		stq := post
 		if len(ctx.side) > 0 {
@@ -484,4 +488,13 @@ func isEntryPoint(fn *ssa.Function, c *Contract) bool {
 		}
 	}
 	return fn.Object() != nil && fn.Object().Exported()
+}
+
+func abstractListComp(name string) bool {
+	for _, p := range []string{"nLimits", "limitList", "nPairs", "pairList", "nNonces", "nonceList", "nMsgrs", "msgrList"} {
+		if name == p || strings.HasPrefix(name, p+".") {
+			return true
+		}
+	}
+	return false
 }
